@@ -19,6 +19,7 @@ func init() {
 			"Jie instants and the exact month/hour pillars are read from the birth's Lunar (validated by C03/C05)",
 		},
 		Gen: c12Gen, Run: c12Run,
+		BlockKind: "year", BlockQuick: [2]int{6, 4}, BlockThorough: [2]int{0, 25},
 		Exhaustive: func(tier string) bool { return false },
 		MinEvals:   map[string]int64{"quick": 1000000, "thorough": 30000000},
 		Chunks:     128,
